@@ -1,11 +1,12 @@
-\* behaviour generation for membership / range proofs, the code as it is
+\* behaviour generation for membership / range proofs. Registered default: the repaired design; checks/C10.py sets a switch to FALSE
+\* only for a deviation that known_findings.json lists as `known` (never by looking at the tree under test)
 CONSTANTS
   H = 4
   MaxV = 3
   MaxKeys = 7
-  EmptyTrieVerifies = FALSE
-  CheckValueDepth = FALSE
-  LeftEdgeChecked = FALSE
+  EmptyTrieVerifies = TRUE
+  CheckValueDepth = TRUE
+  LeftEdgeChecked = TRUE
   MBTLen = 40
 INIT MBTInit
 NEXT MBTNext
